@@ -296,7 +296,7 @@ PROPS = {
     },
     "C08": {
         "test": "TestC08",
-        "lean_modules": ["Gittuf.Props.C08", "Gittuf.Proofs.CacheRefine"],
+        "lean_modules": ["Gittuf.Props.C08", "Gittuf.Proofs.CacheRefine", "Gittuf.Proofs.CacheLoop"],
         "n": {"quick": 6, "thorough": 120},
         "min_per_shard": 2,
         "rule": "histories as for C01 (key-disjoint principals); each is verified by the real verifier (full / latest-only / from-entry for "
